@@ -74,6 +74,42 @@ family(
 )
 
 
+# ---- kinds: one task per storable data type on a JSON source
+family(
+    'kinds',
+    tasks=[
+        _t('a', [P('x')]),
+        _t('n', [], [('a', 'class')], ['a'], kind='numpy'),
+        _t('p', [], [('n', 'class')], ['n'], kind='pandas'),
+        _t('g', [], [('a', 'class')], ['a'], kind='generated'),
+        _t('l', [], [('g', 'class')], ['g'], kind='lazy'),
+        _t('ln', [], [('a', 'class')], ['a'], kind='listnpy'),
+        _t('d', [], [('ln', 'class')], ['ln'], kind='dir'),
+    ],
+    rcs={
+        'k1': dict(build='file', mounts=[dict(ns=None, values={'x': 1})]),
+        'k2': dict(build='dict', mounts=[dict(ns=None, values={'x': 2})]),
+    },
+    lists=[['k1'], ['k2'], ['k1', 'k2']],
+)
+
+# ---- deep: a <- b <- c <- e, the configurations differ only at the far end (chain-specific task below shared ones)
+family(
+    'deep',
+    tasks=[
+        _t('a', [P('x')]),
+        _t('b', [], [('a', 'class')], ['a']),
+        _t('c', [], [('b', 'name')], ['b']),
+        _t('e', [P('w')], [('c', 'class')], ['c']),
+    ],
+    rcs={
+        'e1': dict(build='dict', mounts=[dict(ns=None, values={'x': 1, 'w': 1})]),
+        'e2': dict(build='file', mounts=[dict(ns=None, values={'x': 1, 'w': 2})]),
+    },
+    lists=[['e1'], ['e2'], ['e1', 'e2']],
+)
+
+
 # --------------------------------------------------------------------------- expected resolution (P-level)
 def task_by_slug(fam):
     return {t['slug']: t for t in fam['tasks']}
